@@ -2,7 +2,8 @@
 From Coq Require Import List NArith Arith Bool.
 Import ListNotations.
 From Chiri Require Import Base.Bytes Base.Res Model.Finders Model.Format Spec.Ranges Spec.Lines
-     Proofs.FormatterProofs Proofs.SeamProofs.
+     Model.TagParser Model.Markers Model.Clean Spec.Rename Spec.Simulation
+     Proofs.FormatterProofs Proofs.SeamProofs Proofs.RenameProofs Proofs.BlockDoc.
 
 (** After a block of whole lines has been deleted, what is left of it is the indentation of the
     opening tag's line (blanks, [ls, p)) and the line break that ended the closing tag's line (at p).
@@ -55,10 +56,98 @@ Theorem C13_known_finding_KF1 :
 Proof. exact seam_at_file_start. Qed.
 Print Assumptions C13_known_finding_KF1.
 
-(** The full document-level statement (every surviving non-blank input line appears byte for byte on
-    a line of its own, in order, and a + b - [a > 0 and b > 0] blank lines remain) is the composition
-    of this seam lemma over all seams with C02/C03 (Properties/C02.v); that composition is validated
-    by the oracle of this check on generated block documents, not proved. *)
+(** Document level, ONE block (Proofs/BlockDoc.v): the document is
+      A ++ "\n" ++ ind ++ <opening tag> ++ mid ++ <closing tag> ++ "\n" ++ Z
+    with exactly one element, ready, default strategy, both tags standing alone on their lines
+    ([ind] is the opening tag line's indentation, [mid] everything between the tags).  The whole
+    pipeline is run symbolically: the element is deleted with both tags and what the four seam
+    formatters delete is exactly what the seam lemma above says, so
+      - when the last line of A and the first line of Z are not blank the output is A ++ "\n" ++ Z:
+        every other line byte for byte, the block's lines gone, NO blank line left behind;
+      - with blank lines around, the output is A and Z with one blank neighbour line less when both
+        neighbours are blank (a + b - 1), and all blank lines kept when only one side has them. *)
+Theorem C13_single_block_document :
+  forall cfg ds de A ind b1 mid b2 Z el1 el2,
+    let doc := block_doc A ind b1 mid b2 Z in
+    good_delims ds de -> good_doc ds de doc -> bodies_ok doc ->
+    parse_target b1 = Ok (Some el1) -> parse_target b2 = Ok (Some el2) -> closes el2 el1 ->
+    status cfg el1 = Some true -> has_attr S_UNWRAP (el_attrs el1) = false ->
+    let s' := A ++ NL :: ind ++ NL :: Z in
+    let p := length A + 1 + length ind in
+    exists a b, format_block s' p = Ok (a, b) /\
+       clean cfg ds de (render ds de doc) = Ok (firstn a s' ++ skipn b s').
+Proof. exact clean_single_block. Qed.
+Print Assumptions C13_single_block_document.
+
+Theorem C13_single_block_leaves_no_residue :
+  forall cfg ds de A ind b1 mid b2 Z el1 el2,
+    let doc := block_doc A ind b1 mid b2 Z in
+    good_delims ds de -> good_doc ds de doc -> bodies_ok doc ->
+    parse_target b1 = Ok (Some el1) -> parse_target b2 = Ok (Some el2) -> closes el2 el1 ->
+    status cfg el1 = Some true -> has_attr S_UNWRAP (el_attrs el1) = false ->
+    Forall (fun c => is_blank c = true) ind ->
+    last_line_not_blank A -> first_line_not_blank Z ->
+    clean cfg ds de (render ds de doc) = Ok (A ++ NL :: Z).
+Proof. exact clean_single_block_code_lines. Qed.
+Print Assumptions C13_single_block_leaves_no_residue.
+
+Theorem C13_single_block_blank_lines_both_sides :
+  forall cfg ds de A ind b1 mid b2 Z el1 el2 q q',
+    let doc := block_doc A ind b1 mid b2 Z in
+    good_delims ds de -> good_doc ds de doc -> bodies_ok doc ->
+    parse_target b1 = Ok (Some el1) -> parse_target b2 = Ok (Some el2) -> closes el2 el1 ->
+    status cfg el1 = Some true -> has_attr S_UNWRAP (el_attrs el1) = false ->
+    Forall (fun c => is_blank c = true) ind ->
+    let s' := A ++ NL :: ind ++ NL :: Z in
+    let ls := length A + 1 in
+    let p := length A + 1 + length ind in
+    prev_line_blank s' ls q -> next_line_blank s' p q' ->
+    clean cfg ds de (render ds de doc) = Ok (firstn (q + 1) s' ++ skipn q' s') /\
+    firstn (q + 1) s' ++ skipn q' s' = firstn (q + 1) A ++ skipn (q' - (p + 1)) Z.
+Proof. exact clean_single_block_both. Qed.
+Print Assumptions C13_single_block_blank_lines_both_sides.
+
+Theorem C13_single_block_blank_line_before_only :
+  forall cfg ds de A ind b1 mid b2 Z el1 el2 q,
+    let doc := block_doc A ind b1 mid b2 Z in
+    good_delims ds de -> good_doc ds de doc -> bodies_ok doc ->
+    parse_target b1 = Ok (Some el1) -> parse_target b2 = Ok (Some el2) -> closes el2 el1 ->
+    status cfg el1 = Some true -> has_attr S_UNWRAP (el_attrs el1) = false ->
+    Forall (fun c => is_blank c = true) ind ->
+    let s' := A ++ NL :: ind ++ NL :: Z in
+    let ls := length A + 1 in
+    let p := length A + 1 + length ind in
+    prev_line_blank s' ls q -> next_line_not_blank s' p ->
+    clean cfg ds de (render ds de doc) = Ok (firstn (q + 1) s' ++ skipn p s') /\
+    firstn (q + 1) s' ++ skipn p s' = firstn (q + 1) A ++ NL :: Z.
+Proof. exact clean_single_block_prev. Qed.
+Print Assumptions C13_single_block_blank_line_before_only.
+
+Theorem C13_single_block_blank_line_after_only :
+  forall cfg ds de A ind b1 mid b2 Z el1 el2 q',
+    let doc := block_doc A ind b1 mid b2 Z in
+    good_delims ds de -> good_doc ds de doc -> bodies_ok doc ->
+    parse_target b1 = Ok (Some el1) -> parse_target b2 = Ok (Some el2) -> closes el2 el1 ->
+    status cfg el1 = Some true -> has_attr S_UNWRAP (el_attrs el1) = false ->
+    Forall (fun c => is_blank c = true) ind ->
+    let s' := A ++ NL :: ind ++ NL :: Z in
+    let ls := length A + 1 in
+    let p := length A + 1 + length ind in
+    prev_line_not_blank s' ls -> next_line_blank s' p q' ->
+    clean cfg ds de (render ds de doc) = Ok (firstn ls s' ++ skipn q' s') /\
+    firstn ls s' ++ skipn q' s' = A ++ NL :: skipn (q' - (p + 1)) Z.
+Proof. exact clean_single_block_next. Qed.
+Print Assumptions C13_single_block_blank_line_after_only.
+
+(** Non-vacuity of the document-level theorems: "a\n  <tl to='2000-01-01 00:00:00'>\n  x\n  </tl>\nb"
+    satisfies every premise and cleans to "a\nb" (obtained from the theorem, not by running). *)
+Example C13_single_block_example : _ := block_example.
+
+(** NOT proved: the same for documents with SEVERAL blocks (every surviving non-blank input line
+    appears byte for byte on a line of its own, in order; a + b - [a > 0 and b > 0] blank lines
+    remain around each block that is separated from the others by a non-blank line).  It is the
+    composition of the seam lemma over all seams with C02/C03 (Properties/C02.v); that composition is
+    validated by the oracle of this check on generated block documents. *)
 
 (** Non-vacuity: "x\n  \ny" (block removed between x and y, residue "  "): the whole residue line goes;
     "  \ny" at the start of the file: only the line break goes (KF1). *)
